@@ -17,10 +17,10 @@ func verifYield(point string, channel string, collectionID int64) {
 // VerifNote, when set, receives non-blocking observations made while repo locks
 // are held (e.g. the closing tick computed under the channel lock). The callback
 // must not block.
-var VerifNote func(point string, channel string, a uint64, b int64)
+var VerifNote func(point string, channel string, a uint64, ref any)
 
-func verifNote(point string, channel string, a uint64, b int64) {
+func verifNote(point string, channel string, a uint64, ref any) {
 	if f := VerifNote; f != nil {
-		f(point, channel, a, b)
+		f(point, channel, a, ref)
 	}
 }
